@@ -51,7 +51,7 @@ def shrink(exe_cmd, case, still_fails, budget=120):
                 t = list(toks); t[i] = c; trial_lines.append(' '.join(t))
             outs = core.run_lines(exe_cmd, trial_lines)
             for tl, o in zip(trial_lines, outs):
-                if still_fails(tl, o):
+                if not o.startswith('err protocol') and not o.startswith('err unknown') and still_fails(tl, o):
                     toks = tl.split(); changed = True; break
     return ' '.join(toks)
 
@@ -134,6 +134,12 @@ def decide(spec, group, tier, seed, replay=None):
                         k = known_match(known, pid, c.line)
                         if k: known_hits.append((k, c.line))
                         else: corr_breaks.append(i)
+                    if c.check:
+                        why = c.check(core.parse_vals(impl_out[i]), impl_out[i])
+                        if why:
+                            k = known_match(known, pid, c.line)
+                            if k: known_hits.append((k, c.line))
+                            else: orc_fails.append((i, why))
                 else:
                     chk = c.check or all_zero
                     why = chk(core.parse_vals(impl_out[i]), impl_out[i])
@@ -147,7 +153,7 @@ def decide(spec, group, tier, seed, replay=None):
                 log('%s: obligation/correspondence broken; searching for a failing input' % pid)
                 extra = []
                 for s2 in range(1, 4):
-                    extra += [c for c in spec['gen'](core.Gen(seed * 1000 + s2), 'quick' if tier == 'quick' else 'thorough') if c.kind == 'orc']
+                    extra += [c for c in spec['gen'](core.Gen(seed * 1000 + s2), 'quick' if tier == 'quick' else 'thorough') if c.kind == 'orc' or c.check]
                     if len(extra) > 30000: break
                 # oracle versions of the disagreeing lines first, if the property offers a targeted search
                 if 'targeted' in spec:
